@@ -54,6 +54,29 @@ func genC06(t *rapid.T) C06Case {
 	cfg.Kinds = []string{"pay", "pay", "sf", "sf", "form", "form", "fcop", "fcop", "fcop", "fcop", "foundation", "arb"}
 	tc := kit.GenTree(t, cfg)
 	c := C06Case{Tree: tc, Wallet: kit.Uniform(t, kit.NumActors, "wallet"), FinalChunk: c06Chunks[kit.Uniform(t, len(c06Chunks), "finalchunk")]}
+	// make the wallet's address take several roles in one block more often than
+	// independent draws do: it mines the block, spends in it, and is paid by a
+	// siafund claim / a contract of somebody else in it
+	for i := range tc.Blocks {
+		if !kit.Chance(t, 12, "busyblock") {
+			continue
+		}
+		bs := &tc.Blocks[i]
+		bs.Miner = c.Wallet
+		other := (c.Wallet + 1 + kit.Uniform(t, kit.NumActors-1, "other")) % kit.NumActors
+		extra := []kit.Intent{
+			{Kind: "pay", Who: c.Wallet, To: other, Pick: kit.Uniform(t, 6, "pick"), Amt: kit.Uniform(t, 10, "amt"), V2: kit.Chance(t, 50, "v2"), Fee: kit.Chance(t, 50, "fee")},
+			{Kind: "sf", Who: other, To: other, A: c.Wallet, Amt: kit.Uniform(t, 10, "amt2"), V2: kit.Chance(t, 50, "v2b")},
+		}
+		if kit.Chance(t, 60, "busyform") {
+			extra = append(extra, kit.Intent{Kind: "form", Who: other, To: c.Wallet, Amt: kit.Uniform(t, 5, "amt3"), A: kit.Uniform(t, 12, "a3"), B: kit.Uniform(t, 6, "b3"), V2: kit.Chance(t, 50, "v2c")})
+		}
+		if kit.Chance(t, 60, "busyfcop") {
+			extra = append(extra, kit.Intent{Kind: "fcop", Who: other, Pick: kit.Uniform(t, 8, "pick4"), Amt: kit.Uniform(t, 10, "amt4"), A: kit.Uniform(t, 12, "a4"), B: kit.Uniform(t, 6, "b4")})
+		}
+		bs.Txs = append(bs.Txs, extra...)
+	}
+	c.Tree = tc
 	for _, st := range kit.GenSchedule(t, len(tc.Blocks), 24) {
 		st := st
 		c.Steps = append(c.Steps, C06Step{Submit: &st})
@@ -840,6 +863,35 @@ func checkWallet(cw *c06Wallet, node *kit.Node, tn *kit.TNode, addr types.Addres
 		inflow = inflow.Add(ev.SiacoinInflow())
 		outflow = outflow.Add(ev.SiacoinOutflow())
 		cs.Class("event-kept=" + ev.Type)
+	}
+	// roles of the address that meet in one block
+	byBlock := map[types.ChainIndex]map[string]bool{}
+	for _, ev := range evs {
+		m := byBlock[ev.Index]
+		if m == nil {
+			m = map[string]bool{}
+			byBlock[ev.Index] = m
+		}
+		if (ev.Type == wallet.EventTypeV1Transaction || ev.Type == wallet.EventTypeV2Transaction) && !ev.SiacoinOutflow().IsZero() {
+			m["spend"] = true
+		} else if ev.Type != wallet.EventTypeV1Transaction && ev.Type != wallet.EventTypeV2Transaction {
+			m[ev.Type] = true
+		}
+	}
+	for _, m := range byBlock {
+		if !m["spend"] {
+			continue
+		}
+		n := 0
+		for typ := range m {
+			if typ != "spend" {
+				cs.Class("same-block=own-spend+" + typ)
+				n++
+			}
+		}
+		if n >= 2 {
+			cs.Class("same-block=own-spend+two-or-more-payout-kinds")
+		}
 	}
 	if !inflow.Equals(outflow.Add(wantSum)) {
 		return fmt.Errorf("%s: conservation fails: Σ event inflow %v − Σ event outflow %v ≠ Σ unspent outputs paying the wallet %v (%d events, %d outputs)%s", where, inflow, outflow, wantSum, len(evs), len(want), conservationHint(tn, addr))
